@@ -456,7 +456,7 @@ func compare(c lineageCase) (verdict, error) {
 var (
 	depGroups    = []string{"g", "h"}
 	depArtifacts = []string{"a1", "a2", "a3", "a4"}
-	propNames    = []string{"v1", "v2", "v3", "sc", "opt"}
+	propNames    = []string{"v1", "v2", "v3", "sc", "opt", "isOpt", "depScope"}
 )
 
 type genOpts struct {
@@ -495,8 +495,8 @@ func drawDep(t *rapid.T, managed bool, o genOpts) pDep {
 			d.Classifier = "${cp}"
 		}
 	}
-	d.Scope = rapid.SampledFrom([]string{"", "", "", "compile", "test", "provided", "runtime", "${sc}"}).Draw(t, "scope")
-	d.Optional = rapid.SampledFrom([]string{"", "", "", "true", "false", "${opt}"}).Draw(t, "optional")
+	d.Scope = rapid.SampledFrom([]string{"", "", "", "compile", "test", "provided", "runtime", "${sc}", "${depScope}"}).Draw(t, "scope")
+	d.Optional = rapid.SampledFrom([]string{"", "", "", "true", "false", "${opt}", "${isOpt}"}).Draw(t, "optional")
 	for i, n := 0, rapid.SampledFrom([]int{0, 0, 0, 1, 2}).Draw(t, "nex"); i < n; i++ {
 		e := [2]string{rapid.SampledFrom([]string{"g", "h", "*"}).Draw(t, "eg"), rapid.SampledFrom([]string{"a1", "a2", "*"}).Draw(t, "ea")}
 		if rapid.IntRange(0, 5).Draw(t, "exph") == 0 {
@@ -548,9 +548,9 @@ func drawProps(t *rapid.T, max int) [][2]string {
 		seen[k] = true
 		var v string
 		switch k {
-		case "sc":
+		case "sc", "depScope":
 			v = rapid.SampledFrom([]string{"test", "runtime", "provided", "compile"}).Draw(t, "pv")
-		case "opt":
+		case "opt", "isOpt":
 			v = rapid.SampledFrom([]string{"true", "false"}).Draw(t, "pv")
 		default:
 			v = rapid.SampledFrom([]string{"1.1", "3.0", "4.5", "${v2}", "${v3}", "${project.version}", "${project.parent.version}", "${version}", "${project.groupId}", " 5.0 ", "${v3}-x"}).Draw(t, "pv")
@@ -696,7 +696,7 @@ func drawLineage(t *rapid.T, o genOpts) lineage {
 		for _, kv := range top.Props {
 			have[kv[0]] = true
 		}
-		for _, kv := range [][2]string{{"v1", "1.5"}, {"v2", "2.5"}, {"v3", "3.5"}, {"sc", "runtime"}, {"opt", "true"}, {"gp", "k"}, {"ap", "a9"}, {"tp", "zip"}, {"cp", "extra"}} {
+		for _, kv := range [][2]string{{"v1", "1.5"}, {"v2", "2.5"}, {"v3", "3.5"}, {"sc", "runtime"}, {"opt", "true"}, {"isOpt", "true"}, {"depScope", "provided"}, {"gp", "k"}, {"ap", "a9"}, {"tp", "zip"}, {"cp", "extra"}} {
 			if !have[kv[0]] {
 				top.Props = append(top.Props, kv)
 			}
@@ -707,7 +707,7 @@ func drawLineage(t *rapid.T, o genOpts) lineage {
 				for _, kv := range bomPOMs[i].Props {
 					have[kv[0]] = true
 				}
-				for _, kv := range [][2]string{{"v1", "1.6"}, {"v2", "2.6"}, {"v3", "3.6"}, {"sc", "test"}, {"opt", "false"}, {"gp", "k"}, {"ap", "a9"}, {"tp", "zip"}, {"cp", "extra"}} {
+				for _, kv := range [][2]string{{"v1", "1.6"}, {"v2", "2.6"}, {"v3", "3.6"}, {"sc", "test"}, {"opt", "false"}, {"isOpt", "true"}, {"depScope", "runtime"}, {"gp", "k"}, {"ap", "a9"}, {"tp", "zip"}, {"cp", "extra"}} {
 					if !have[kv[0]] {
 						bomPOMs[i].Props = append(bomPOMs[i].Props, kv)
 					}
